@@ -1,15 +1,1037 @@
 package main
 
+import (
+	"bufio"
+	"bytes"
+	"context"
+	"encoding/json"
+	"fmt"
+	"go/types"
+	"io"
+	"math/big"
+	"os"
+	"os/exec"
+	"path/filepath"
+	"sort"
+	"strings"
+	"time"
+
+	"golang.org/x/tools/go/ssa"
+)
+
 // ReplayResult describes the attempt to re-run a counterexample on the real code.
 type ReplayResult struct {
-	Attempted  bool   `json:"attempted"`
-	Reproduced bool   `json:"reproduced"`
-	Reason     string `json:"reason,omitempty"`
-	TestFile   string `json:"test_file,omitempty"`
-	Output     string `json:"output,omitempty"`
+	Attempted  bool              `json:"attempted"`
+	Reproduced bool              `json:"reproduced"`
+	Reason     string            `json:"reason,omitempty"`
+	TestFile   string            `json:"test_file,omitempty"`
+	TestSource string            `json:"test_source,omitempty"`
+	Output     string            `json:"output,omitempty"`
 	Inputs     map[string]string `json:"inputs,omitempty"`
+	Predicted  []string          `json:"model_predicted_results,omitempty"`
+	Observed   []string          `json:"observed_results,omitempty"`
+	Command    string            `json:"command,omitempty"`
+	TestPath   string            `json:"test_overlay_path,omitempty"`
+	Kind       string            `json:"obligation_kind,omitempty"`
 }
 
-func tryReplay(w *World, u *UnitResult, o *OblResult, workdir string) *ReplayResult {
-	return &ReplayResult{Attempted: false, Reason: "replay generator not available for this function shape"}
+// cmdReplay re-runs the generated test of a replay file against /repo's current tree.
+func cmdReplay(path string) int {
+	data, err := os.ReadFile(path)
+	if err != nil {
+		fmt.Println(err)
+		return 2
+	}
+	var doc struct {
+		Property   string        `json:"property"`
+		Obligation string        `json:"obligation"`
+		Desc       string        `json:"desc"`
+		Status     string        `json:"status"`
+		Output     string        `json:"solver_output"`
+		Replay     *ReplayResult `json:"replay"`
+	}
+	if err := json.Unmarshal(data, &doc); err != nil {
+		fmt.Println(err)
+		return 2
+	}
+	fmt.Printf("obligation: %s\n%s\nstatus: %s\n", doc.Obligation, doc.Desc, doc.Status)
+	if doc.Replay == nil || doc.Replay.TestSource == "" {
+		fmt.Println("no executable replay recorded for this obligation (no-failing-input-found); solver output:")
+		fmt.Println(truncate(doc.Output, 4000))
+		return 0
+	}
+	dir, _ := os.MkdirTemp("/var/tmp", "govc-replay-")
+	defer os.RemoveAll(dir)
+	tf := filepath.Join(dir, "replay_test.go")
+	os.WriteFile(tf, []byte(doc.Replay.TestSource), 0o644)
+	ov, _ := json.Marshal(map[string]map[string]string{"Replace": {doc.Replay.TestPath: tf}})
+	of := filepath.Join(dir, "ov.json")
+	os.WriteFile(of, ov, 0o644)
+	rel, _ := filepath.Rel("/repo", filepath.Dir(doc.Replay.TestPath))
+	cmd := exec.Command("go", "test", "-v", "-overlay", of, "-vet=off", "-count=1", "-timeout", "60s", "-run", "^TestGovcReplay$", "./"+rel)
+	cmd.Dir = "/repo"
+	cmd.Env = append(os.Environ(), "GOFLAGS=-mod=mod", "GOPROXY=off", "GOTOOLCHAIN=auto")
+	out, _ := cmd.CombinedOutput()
+	fmt.Println(string(out))
+	fmt.Printf("model-predicted results: %v\n", doc.Replay.Predicted)
+	var observed []string
+	panicked := false
+	for _, ln := range strings.Split(string(out), "\n") {
+		if strings.HasPrefix(ln, "GOVC-RESULT ") {
+			f := strings.SplitN(ln, " ", 3)
+			if len(f) == 3 {
+				observed = append(observed, f[2])
+			}
+		}
+		if strings.HasPrefix(ln, "GOVC-PANIC") {
+			panicked = true
+		}
+	}
+	same := len(observed) == len(doc.Replay.Predicted) && len(observed) > 0
+	for i := range observed {
+		if same && doc.Replay.Predicted[i] != "?" && !sameShown(observed[i], doc.Replay.Predicted[i]) {
+			same = false
+		}
+	}
+	if doc.Replay.Kind == "nopanic" {
+		same = panicked
+	}
+	if same {
+		fmt.Printf("VIOLATION property=%s replay=%s\n", doc.Property, path)
+		return 1
+	}
+	fmt.Println("the current tree no longer reproduces this counterexample")
+	return 0
 }
+
+type replayUnused struct{
+
+// ---------------------------------------------------------------------------
+// interactive model session (z3-new -in): one model, many get-value queries
+
+type modelSession struct {
+	cmd *exec.Cmd
+	in  io.WriteCloser
+	out *bufio.Reader
+	ok  bool
+}
+
+func newModelSession(query string) (*modelSession, error) {
+	// strip the final (get-model) and keep the solver alive
+	q := strings.Replace(query, "(get-model)\n", "", 1)
+	ctx, _ := context.WithTimeout(context.Background(), 60*time.Second)
+	cmd := exec.CommandContext(ctx, "z3-new", "-in", "-T:40")
+	in, err := cmd.StdinPipe()
+	if err != nil {
+		return nil, err
+	}
+	outp, err := cmd.StdoutPipe()
+	if err != nil {
+		return nil, err
+	}
+	cmd.Stderr = cmd.Stdout
+	if err := cmd.Start(); err != nil {
+		return nil, err
+	}
+	s := &modelSession{cmd: cmd, in: in, out: bufio.NewReader(outp)}
+	io.WriteString(in, q)
+	line, err := s.out.ReadString('\n')
+	if err != nil {
+		s.close()
+		return nil, err
+	}
+	if strings.TrimSpace(line) != "sat" {
+		s.close()
+		return nil, fmt.Errorf("model session: solver answered %q", strings.TrimSpace(line))
+	}
+	s.ok = true
+	return s, nil
+}
+
+func (s *modelSession) close() {
+	if s.in != nil {
+		io.WriteString(s.in, "(exit)\n")
+		s.in.Close()
+	}
+	if s.cmd != nil && s.cmd.Process != nil {
+		s.cmd.Process.Kill()
+		s.cmd.Wait()
+	}
+}
+
+// eval returns the model value of term as an s-expression string.
+func (s *modelSession) eval(term string) (string, error) {
+	io.WriteString(s.in, "(get-value ("+term+"))\n")
+	// read one balanced s-expression
+	var b strings.Builder
+	depth := 0
+	started := false
+	for {
+		c, err := s.out.ReadByte()
+		if err != nil {
+			return "", err
+		}
+		b.WriteByte(c)
+		switch c {
+		case '(':
+			depth++
+			started = true
+		case ')':
+			depth--
+		case '|':
+			// quoted symbol: copy until closing bar
+			for {
+				d, err := s.out.ReadByte()
+				if err != nil {
+					return "", err
+				}
+				b.WriteByte(d)
+				if d == '|' {
+					break
+				}
+			}
+		}
+		if started && depth == 0 {
+			break
+		}
+	}
+	txt := strings.TrimSpace(b.String())
+	if strings.HasPrefix(txt, "(error") {
+		return "", fmt.Errorf("%s", txt)
+	}
+	// txt = ((term value))
+	sx := parseSexp(txt)
+	if sx == nil || len(sx.kids) != 1 || len(sx.kids[0].kids) != 2 {
+		return "", fmt.Errorf("unexpected get-value answer %q", txt)
+	}
+	return sx.kids[0].kids[1].String(), nil
+}
+
+// tiny s-expression parser -----------------------------------------------------
+
+type sexp struct {
+	atom string
+	kids []*sexp
+	list bool
+}
+
+func (s *sexp) String() string {
+	if !s.list {
+		return s.atom
+	}
+	var p []string
+	for _, k := range s.kids {
+		p = append(p, k.String())
+	}
+	return "(" + strings.Join(p, " ") + ")"
+}
+
+func parseSexp(txt string) *sexp {
+	pos := 0
+	var parse func() *sexp
+	skip := func() {
+		for pos < len(txt) && (txt[pos] == ' ' || txt[pos] == '\n' || txt[pos] == '\t' || txt[pos] == '\r') {
+			pos++
+		}
+	}
+	parse = func() *sexp {
+		skip()
+		if pos >= len(txt) {
+			return nil
+		}
+		if txt[pos] == '(' {
+			pos++
+			n := &sexp{list: true}
+			for {
+				skip()
+				if pos >= len(txt) {
+					return n
+				}
+				if txt[pos] == ')' {
+					pos++
+					return n
+				}
+				k := parse()
+				if k == nil {
+					return n
+				}
+				n.kids = append(n.kids, k)
+			}
+		}
+		start := pos
+		if txt[pos] == '|' {
+			pos++
+			for pos < len(txt) && txt[pos] != '|' {
+				pos++
+			}
+			pos++
+			return &sexp{atom: txt[start:pos]}
+		}
+		for pos < len(txt) && !strings.ContainsRune(" \n\t\r()", rune(txt[pos])) {
+			pos++
+		}
+		return &sexp{atom: txt[start:pos]}
+	}
+	return parse()
+}
+
+// numeric model values ------------------------------------------------------------
+
+func sexpToRat(s *sexp) (*big.Rat, bool) {
+	if !s.list {
+		r, ok := new(big.Rat).SetString(s.atom)
+		return r, ok
+	}
+	if len(s.kids) == 2 && s.kids[0].atom == "-" {
+		r, ok := sexpToRat(s.kids[1])
+		if !ok {
+			return nil, false
+		}
+		return r.Neg(r), true
+	}
+	if len(s.kids) == 3 && s.kids[0].atom == "/" {
+		a, ok1 := sexpToRat(s.kids[1])
+		b, ok2 := sexpToRat(s.kids[2])
+		if !ok1 || !ok2 || b.Sign() == 0 {
+			return nil, false
+		}
+		return a.Quo(a, b), true
+	}
+	return nil, false
+}
+
+// ---------------------------------------------------------------------------
+// reconstruction of Go inputs from the model
+
+type replayBuilder struct {
+	u       *Unit
+	w       *World
+	sess    *modelSession
+	pkg     *types.Package
+	imports map[string]string // path -> alias
+	stmts   []string
+	objs    map[string]string // "<typekey>@<ref>" -> variable name
+	nvar    int
+	strs    map[string]string // model universe element -> Go string literal
+	nstr    int
+	fail    string
+	needsUnsafe bool
+	inputs  map[string]string
+}
+
+func (b *replayBuilder) failf(format string, a ...interface{}) {
+	if b.fail == "" {
+		b.fail = fmt.Sprintf(format, a...)
+	}
+}
+
+func (b *replayBuilder) val(term string) *sexp {
+	v, err := b.sess.eval(term)
+	if err != nil {
+		b.failf("model evaluation of %s failed: %v", truncate(term, 80), err)
+		return &sexp{atom: "0"}
+	}
+	return parseSexp(v)
+}
+
+func (b *replayBuilder) intVal(term string) (int64, bool) {
+	r, ok := sexpToRat(b.val(term))
+	if !ok || !r.IsInt() || !r.Num().IsInt64() {
+		return 0, false
+	}
+	return r.Num().Int64(), true
+}
+
+func (b *replayBuilder) typeExpr(t types.Type) string {
+	return types.TypeString(t, func(p *types.Package) string {
+		if p == b.pkg {
+			return ""
+		}
+		if a, ok := b.imports[p.Path()]; ok {
+			return a
+		}
+		a := fmt.Sprintf("p%d", len(b.imports)+1)
+		b.imports[p.Path()] = a
+		return a
+	})
+}
+
+func (b *replayBuilder) nameable(t types.Type) bool {
+	ok := true
+	var visit func(t types.Type, d int)
+	visit = func(t types.Type, d int) {
+		if d > 6 {
+			return
+		}
+		switch x := t.(type) {
+		case *types.Named:
+			if x.Obj().Pkg() != nil && x.Obj().Pkg() != b.pkg && !x.Obj().Exported() {
+				ok = false
+			}
+			if ta := x.TypeArgs(); ta != nil {
+				for i := 0; i < ta.Len(); i++ {
+					visit(ta.At(i), d+1)
+				}
+			}
+		case *types.Pointer:
+			visit(x.Elem(), d+1)
+		case *types.Slice:
+			visit(x.Elem(), d+1)
+		case *types.Map:
+			visit(x.Key(), d+1)
+			visit(x.Elem(), d+1)
+		}
+	}
+	visit(t, 0)
+	return ok
+}
+
+func (b *replayBuilder) strLit(sx *sexp) string {
+	key := sx.String()
+	if v, ok := b.strs[key]; ok {
+		return v
+	}
+	b.nstr++
+	v := fmt.Sprintf("%q", fmt.Sprintf("govc_s%d", b.nstr))
+	b.strs[key] = v
+	return v
+}
+
+func (b *replayBuilder) floatExpr(sx *sexp) string {
+	if sx.list && len(sx.kids) == 2 && sx.kids[0].atom == "fin" {
+		return b.floatExpr(sx.kids[1])
+	}
+	switch sx.atom {
+	case "nan":
+		b.imports["math"] = "math"
+		return "math.NaN()"
+	case "pinf":
+		b.imports["math"] = "math"
+		return "math.Inf(1)"
+	case "ninf":
+		b.imports["math"] = "math"
+		return "math.Inf(-1)"
+	}
+	r, ok := sexpToRat(sx)
+	if !ok {
+		b.failf("cannot read float model value %s", sx.String())
+		return "0"
+	}
+	if r.IsInt() {
+		return "float64(" + r.Num().String() + ")"
+	}
+	return "(float64(" + r.Num().String() + ") / float64(" + r.Denom().String() + "))"
+}
+
+// scalarExpr renders a scalar model value of Go type t.
+func (b *replayBuilder) scalarExpr(term Term, t types.Type, depth int) string {
+	if _, op := isOpaqueScalar(t); op {
+		b.failf("opaque scalar type %s in inputs", shortType(t))
+		return "nil"
+	}
+	switch u := t.Underlying().(type) {
+	case *types.Basic:
+		sx := b.val(term.S)
+		var lit string
+		switch {
+		case u.Info()&types.IsBoolean != 0:
+			lit = sx.atom
+		case u.Info()&types.IsInteger != 0:
+			r, ok := sexpToRat(sx)
+			if !ok || !r.IsInt() {
+				b.failf("cannot read int model value %s", sx.String())
+				return "0"
+			}
+			lit = r.Num().String()
+		case u.Info()&types.IsFloat != 0:
+			lit = b.floatExpr(sx)
+		case u.Info()&types.IsString != 0:
+			lit = b.strLit(sx)
+		default:
+			b.failf("unsupported basic type %s", shortType(t))
+			return "0"
+		}
+		if _, named := t.(*types.Named); named {
+			return b.typeExpr(t) + "(" + lit + ")"
+		}
+		return lit
+	case *types.Pointer:
+		return b.pointerExpr(term, t, u.Elem(), depth)
+	case *types.Map:
+		return b.mapExpr(term, t, u, depth)
+	case *types.Interface:
+		n, ok := b.intVal(term.S)
+		if ok && n == 0 {
+			return "nil"
+		}
+		if isErrorType(t) {
+			b.imports["errors"] = "errors"
+			return `errors.New("govc replay error")`
+		}
+		b.failf("non-nil interface value of type %s in inputs", shortType(t))
+		return "nil"
+	case *types.Signature:
+		n, ok := b.intVal(term.S)
+		if ok && n == 0 {
+			return "nil"
+		}
+		b.failf("non-nil function value in inputs")
+		return "nil"
+	}
+	b.failf("unsupported input type %s", shortType(t))
+	return "nil"
+}
+
+func (b *replayBuilder) newVar() string {
+	b.nvar++
+	return fmt.Sprintf("o%d", b.nvar)
+}
+
+func (b *replayBuilder) preFam(fam, sortv string) Term {
+	return b.u.viewGet(b.u.pre.View(), fam, sortv)
+}
+
+func (b *replayBuilder) pointerExpr(term Term, pt types.Type, elem types.Type, depth int) string {
+	n, ok := b.intVal(term.S)
+	if !ok {
+		b.failf("cannot read pointer value")
+		return "nil"
+	}
+	if n == 0 {
+		return "nil"
+	}
+	key := typeKey(elem) + "@" + fmt.Sprint(n)
+	if v, ok := b.objs[key]; ok {
+		return v
+	}
+	if depth > 5 {
+		return "nil"
+	}
+	if !b.nameable(elem) {
+		b.failf("type %s cannot be named from package %s", shortType(elem), b.pkg.Name())
+		return "nil"
+	}
+	v := b.newVar()
+	b.objs[key] = v
+	ref := IntLit(n)
+	if isStructType(elem) {
+		b.stmts = append(b.stmts, fmt.Sprintf("%s := new(%s)", v, b.typeExpr(elem)))
+		b.fillStruct(v, ref, elem, depth)
+		return v
+	}
+	if s := scalarSort(elem); s != "" {
+		inner := b.scalarExpr(Select(b.preFam(cellFam(elem), ArrSort(SInt, s)), ref), elem, depth+1)
+		b.stmts = append(b.stmts, fmt.Sprintf("%s := new(%s)", v, b.typeExpr(elem)), fmt.Sprintf("*%s = %s", v, inner))
+		return v
+	}
+	b.failf("pointer to %s in inputs", shortType(elem))
+	return "nil"
+}
+
+// fillStruct assigns the fields of the object at ref whose heap families the query mentions.
+func (b *replayBuilder) fillStruct(v string, ref Term, t types.Type, depth int) {
+	s := t.Underlying().(*types.Struct)
+	for i := 0; i < s.NumFields(); i++ {
+		f := s.Field(i)
+		ft := f.Type()
+		if isStructType(ft) {
+			sub := b.u.subAddr(ref, t, i)
+			b.fillStructField(v, f, sub, ft, depth)
+			continue
+		}
+		var expr string
+		if sl, ok := ft.Underlying().(*types.Slice); ok {
+			fam := fieldFam(t, i)
+			if _, used := b.u.famSort[fam+"#len"]; !used {
+				continue
+			}
+			expr = b.sliceExpr(Select(b.preFam(fam+"#arr", ArrSort(SInt, SInt)), ref), Select(b.preFam(fam+"#off", ArrSort(SInt, SInt)), ref), Select(b.preFam(fam+"#len", ArrSort(SInt, SInt)), ref), ft, sl.Elem(), depth+1)
+		} else if sv := scalarSort(ft); sv != "" {
+			fam := fieldFam(t, i)
+			if _, used := b.u.famSort[fam]; !used {
+				continue
+			}
+			expr = b.scalarExpr(Select(b.preFam(fam, ArrSort(SInt, sv)), ref), ft, depth+1)
+		} else {
+			continue
+		}
+		b.setField(v, f, expr, ft)
+	}
+}
+
+func (b *replayBuilder) fillStructField(v string, f *types.Var, sub Term, ft types.Type, depth int) {
+	// nested by-value struct: fill through a pointer to the field
+	if !b.nameable(ft) {
+		return
+	}
+	inner := b.newVar()
+	if f.Exported() || f.Pkg() == b.pkg {
+		b.stmts = append(b.stmts, fmt.Sprintf("%s := &%s.%s", inner, v, f.Name()))
+	} else {
+		b.needsUnsafe = true
+		b.stmts = append(b.stmts, fmt.Sprintf("%s := (*%s)(govcFieldPtr(%s, %q))", inner, b.typeExpr(ft), v, f.Name()))
+	}
+	n := len(b.stmts)
+	b.fillStruct(inner, sub, ft, depth+1)
+	if len(b.stmts) == n {
+		b.stmts = append(b.stmts, "_ = "+inner)
+	}
+}
+
+func (b *replayBuilder) setField(v string, f *types.Var, expr string, ft types.Type) {
+	if f.Exported() || f.Pkg() == b.pkg {
+		b.stmts = append(b.stmts, fmt.Sprintf("%s.%s = %s", v, f.Name(), expr))
+		return
+	}
+	if !b.nameable(ft) {
+		return
+	}
+	b.needsUnsafe = true
+	b.stmts = append(b.stmts, fmt.Sprintf("*(*%s)(govcFieldPtr(%s, %q)) = %s", b.typeExpr(ft), v, f.Name(), expr))
+}
+
+func (b *replayBuilder) sliceExpr(arr, off, ln Term, st types.Type, elem types.Type, depth int) string {
+	a, ok := b.intVal(arr.S)
+	if !ok {
+		b.failf("cannot read slice")
+		return "nil"
+	}
+	if a == 0 {
+		return "nil"
+	}
+	n, ok := b.intVal(ln.S)
+	if !ok || n < 0 || n > 16 {
+		b.failf("slice length %d out of replay range", n)
+		return "nil"
+	}
+	o, _ := b.intVal(off.S)
+	if !b.nameable(st) {
+		b.failf("type %s cannot be named", shortType(st))
+		return "nil"
+	}
+	var elems []string
+	for i := int64(0); i < n; i++ {
+		addr := b.u.elemAddr(IntLit(a), IntLit(o+i))
+		if isStructType(elem) {
+			ev := b.newVar()
+			b.stmts = append(b.stmts, fmt.Sprintf("%s := new(%s)", ev, b.typeExpr(elem)))
+			b.fillStruct(ev, addr, elem, depth+1)
+			elems = append(elems, "*"+ev)
+			continue
+		}
+		s := scalarSort(elem)
+		if s == "" {
+			b.failf("slice of %s in inputs", shortType(elem))
+			return "nil"
+		}
+		elems = append(elems, b.scalarExpr(Select(b.preFam(cellFam(elem), ArrSort(SInt, s)), addr), elem, depth+1))
+	}
+	return b.typeExpr(st) + "{" + strings.Join(elems, ", ") + "}"
+}
+
+// mapExpr enumerates the keys of the model's domain array (store chains over a constant array).
+func (b *replayBuilder) mapExpr(term Term, mt types.Type, m *types.Map, depth int) string {
+	n, ok := b.intVal(term.S)
+	if !ok {
+		b.failf("cannot read map reference")
+		return "nil"
+	}
+	if n == 0 {
+		return "nil"
+	}
+	key := typeKey(mt) + "@" + fmt.Sprint(n)
+	if v, ok := b.objs[key]; ok {
+		return v
+	}
+	if !b.nameable(mt) {
+		b.failf("type %s cannot be named", shortType(mt))
+		return "nil"
+	}
+	ks := scalarSort(m.Key())
+	if ks == "" {
+		b.failf("map key type %s", shortType(m.Key()))
+		return "nil"
+	}
+	v := b.newVar()
+	b.objs[key] = v
+	b.stmts = append(b.stmts, fmt.Sprintf("%s := %s{}", v, b.typeExpr(mt)))
+	ref := IntLit(n)
+	domT := Select(b.preFam(mapDomFam(mt), ArrSort(SInt, ArrSort(ks, SBool))), ref)
+	// candidate keys: string literals of the query, keys stored in the model's array, values of key-sorted parameters
+	cands := map[string]Term{}
+	if ks == SStr {
+		for _, lit := range b.u.ctx.strOrder {
+			t := b.u.ctx.StrLit(lit)
+			cands[t.S] = t
+		}
+	}
+	// every declared constant of the key sort is a candidate key (model-internal element names cannot be referenced)
+	for sym, decl := range b.u.ctx.decls {
+		if strings.HasSuffix(decl, "() "+ks+")") {
+			cands[sym] = Term{sym, ks}
+		}
+	}
+	if ks != SStr {
+		dom := b.val(domT.S)
+		collectStoreKeys(dom, cands, ks)
+	}
+	var keys []string
+	for k := range cands {
+		keys = append(keys, k)
+	}
+	sort.Strings(keys)
+	if len(keys) > 24 {
+		keys = keys[:24]
+	}
+	seenKeyVal := map[string]bool{}
+	for _, k := range keys {
+		kt := cands[k]
+		kv := b.val(kt.S).String()
+		if seenKeyVal[kv] {
+			continue
+		}
+		in := b.val(Select(domT, kt).S)
+		if in.atom != "true" {
+			continue
+		}
+		seenKeyVal[kv] = true
+		kexpr := b.scalarExpr(kt, m.Key(), depth+1)
+		var vexpr string
+		if isEmptyStruct(m.Elem()) {
+			vexpr = b.typeExpr(m.Elem()) + "{}"
+		} else if vs := scalarSort(m.Elem()); vs != "" {
+			vt := Select(Select(b.preFam(mapValFam(mt), ArrSort(SInt, ArrSort(ks, vs))), ref), kt)
+			vexpr = b.scalarExpr(vt, m.Elem(), depth+1)
+		} else if sl, ok := m.Elem().Underlying().(*types.Slice); ok {
+			fam := mapValFam(mt)
+			g := func(sfx string) Term {
+				return Select(Select(b.preFam(fam+sfx, ArrSort(SInt, ArrSort(ks, SInt))), ref), kt)
+			}
+			vexpr = b.sliceExpr(g("#arr"), g("#off"), g("#len"), m.Elem(), sl.Elem(), depth+1)
+		} else {
+			b.failf("map value type %s", shortType(m.Elem()))
+			return "nil"
+		}
+		b.stmts = append(b.stmts, fmt.Sprintf("%s[%s] = %s", v, kexpr, vexpr))
+	}
+	return v
+}
+
+func collectStoreKeys(sx *sexp, out map[string]Term, ks string) {
+	if sx == nil || !sx.list {
+		return
+	}
+	if len(sx.kids) == 4 && sx.kids[0].atom == "store" {
+		k := sx.kids[2].String()
+		out[k] = Term{k, ks}
+		collectStoreKeys(sx.kids[1], out, ks)
+		return
+	}
+	for _, k := range sx.kids {
+		collectStoreKeys(k, out, ks)
+	}
+}
+
+func (b *replayBuilder) valueExpr(v Value, t types.Type) string {
+	switch x := v.(type) {
+	case Sc:
+		return b.scalarExpr(x.T, t, 0)
+	case SliceV:
+		sl := t.Underlying().(*types.Slice)
+		return b.sliceExpr(x.Arr, x.Off, x.Len, t, sl.Elem(), 0)
+	case *StructV:
+		if !b.nameable(t) {
+			b.failf("type %s cannot be named", shortType(t))
+			return "nil"
+		}
+		tmp := b.newVar()
+		b.stmts = append(b.stmts, fmt.Sprintf("%s := new(%s)", tmp, b.typeExpr(t)))
+		s := t.Underlying().(*types.Struct)
+		for i := 0; i < s.NumFields(); i++ {
+			f := s.Field(i)
+			fv := b.u.fieldOfStruct(x, i)
+			if _, isS := fv.(*StructV); isS {
+				continue // nested by-value structs of by-value parameters: left zero
+			}
+			if sc, ok := fv.(Sc); ok {
+				if _, declared := b.u.ctx.decls[sc.T.S]; !declared && !strings.HasPrefix(sc.T.S, "(") {
+					continue
+				}
+			}
+			b.setField(tmp, f, b.valueExpr(fv, f.Type()), f.Type())
+		}
+		return "*" + tmp
+	}
+	b.failf("unsupported parameter value %T", v)
+	return "nil"
+}
+
+// ---------------------------------------------------------------------------
+
+func tryReplay(w *World, ur *UnitResult, o *OblResult, workdir string) *ReplayResult {
+	rr := &ReplayResult{}
+	u := ur.unit
+	if u == nil || u.fn == nil {
+		rr.Reason = "no unit"
+		return rr
+	}
+	fn := u.fn
+	if fn.Parent() != nil || len(fn.FreeVars) > 0 {
+		rr.Reason = "closure units are not replayed (captured variables cannot be rebuilt from outside)"
+		return rr
+	}
+	if fn.Signature.TypeParams() != nil && fn.Signature.TypeParams().Len() > 0 {
+		rr.Reason = "generic function"
+		return rr
+	}
+	switch o.Kind {
+	case "ensures", "lemma", "nopanic":
+	default:
+		rr.Reason = "obligation kind " + o.Kind + " has no direct input/output reading (it concerns an intermediate state)"
+		return rr
+	}
+	sess, err := newModelSession(u.ctx.QueryX(o.Prefix, o.Goal, true, o.Relaxed))
+	if err != nil {
+		rr.Reason = "no model session: " + err.Error()
+		return rr
+	}
+	defer sess.close()
+	rr.Attempted = true
+	b := &replayBuilder{u: u, w: w, sess: sess, pkg: fn.Pkg.Pkg, imports: map[string]string{}, objs: map[string]string{}, strs: map[string]string{}, inputs: map[string]string{}}
+	// string literals map to themselves
+	for _, lit := range u.ctx.strOrder {
+		sx := b.val(u.ctx.strLits[lit])
+		b.strs[sx.String()] = fmt.Sprintf("%q", lit)
+	}
+	saved := curFloatSort
+	if u.ieee {
+		curFloatSort = SF
+	}
+	defer func() { curFloatSort = saved }()
+	u.ctx.inQuant++ // no side assertions while rebuilding terms
+	defer func() { u.ctx.inQuant-- }()
+	var args []string
+	for _, p := range fn.Params {
+		v := u.pre.Env[p]
+		e := b.valueExpr(v, p.Type())
+		args = append(args, e)
+		b.inputs[p.Name()] = e
+	}
+	if b.fail != "" {
+		rr.Reason = "inputs not reconstructible: " + b.fail
+		return rr
+	}
+	// predicted results
+	var predicted []string
+	for i, rv := range u.retVals {
+		rt := fn.Signature.Results().At(i).Type()
+		predicted = append(predicted, b.resultString(rv, rt))
+	}
+	rr.Predicted = predicted
+	rr.Inputs = b.inputs
+	// call expression
+	call := ""
+	if fn.Signature.Recv() != nil {
+		recv := args[0]
+		call = fmt.Sprintf("(%s).%s(%s)", recv, fn.Name(), strings.Join(args[1:], ", "))
+	} else {
+		call = fmt.Sprintf("%s(%s)", fn.Name(), strings.Join(args, ", "))
+	}
+	nres := fn.Signature.Results().Len()
+	var src bytes.Buffer
+	fmt.Fprintf(&src, "package %s\n\nimport (\n\t\"fmt\"\n\t\"testing\"\n", fn.Pkg.Pkg.Name())
+	if b.needsUnsafe {
+		fmt.Fprintf(&src, "\t\"reflect\"\n\t\"unsafe\"\n")
+	}
+	var paths []string
+	for p := range b.imports {
+		paths = append(paths, p)
+	}
+	sort.Strings(paths)
+	for _, p := range paths {
+		if b.imports[p] == filepath.Base(p) || b.imports[p] == p {
+			fmt.Fprintf(&src, "\t%q\n", p)
+		} else {
+			fmt.Fprintf(&src, "\t%s %q\n", b.imports[p], p)
+		}
+	}
+	fmt.Fprintf(&src, ")\n\n")
+	if b.needsUnsafe {
+		src.WriteString("func govcFieldPtr(obj interface{}, name string) unsafe.Pointer {\n\tv := reflect.ValueOf(obj).Elem()\n\treturn unsafe.Pointer(v.FieldByName(name).UnsafeAddr())\n}\n\n")
+	}
+	src.WriteString("func govcShow(v interface{}) string {\n\tswitch x := v.(type) {\n\tcase error:\n\t\tif x == nil { return \"nil\" }\n\t\treturn \"non-nil\"\n\t}\n\trv := fmt.Sprintf(\"%v\", v)\n\tif v == nil { return \"nil\" }\n\treturn rv\n}\n\n")
+	fmt.Fprintf(&src, "// Generated by govc: replay of the counterexample of obligation\n//   %s\n//   %s\nfunc TestGovcReplay(t *testing.T) {\n", o.Name, o.Desc)
+	src.WriteString("\tdefer func() {\n\t\tif r := recover(); r != nil {\n\t\t\tfmt.Printf(\"GOVC-PANIC %v\\n\", r)\n\t\t}\n\t}()\n")
+	for _, s := range b.stmts {
+		src.WriteString("\t" + s + "\n")
+	}
+	switch nres {
+	case 0:
+		fmt.Fprintf(&src, "\t%s\n\tfmt.Println(\"GOVC-RETURNED\")\n", call)
+	default:
+		var rs []string
+		for i := 0; i < nres; i++ {
+			rs = append(rs, fmt.Sprintf("r%d", i))
+		}
+		fmt.Fprintf(&src, "\t%s := %s\n", strings.Join(rs, ", "), call)
+		for i := range rs {
+			fmt.Fprintf(&src, "\tfmt.Printf(\"GOVC-RESULT %d %%s\\n\", govcShow(%s))\n", i, resultShowExpr(rs[i], fn.Signature.Results().At(i).Type()))
+		}
+	}
+	src.WriteString("}\n")
+	rr.TestSource = src.String()
+	// run it through an overlay
+	pos := w.fset.Position(fn.Pos())
+	dir := filepath.Dir(pos.Filename)
+	testPath := filepath.Join(dir, "zz_govc_replay_test.go")
+	os.MkdirAll(workdir, 0o755)
+	tmpTest := filepath.Join(workdir, "replay_"+sanitize(filepath.Base(oblFile(solveConfig{}, o.Name)))+"_test.go")
+	os.WriteFile(tmpTest, src.Bytes(), 0o644)
+	ov := map[string]map[string]string{"Replace": {testPath: tmpTest}}
+	ovData, _ := json.Marshal(ov)
+	ovFile := tmpTest + ".overlay.json"
+	os.WriteFile(ovFile, ovData, 0o644)
+	rel, _ := filepath.Rel("/repo", dir)
+	ctx, cancel := context.WithTimeout(context.Background(), 180*time.Second)
+	defer cancel()
+	cmd := exec.CommandContext(ctx, "go", "test", "-v", "-overlay", ovFile, "-vet=off", "-count=1", "-timeout", "60s", "-run", "^TestGovcReplay$", "./"+rel)
+	cmd.Dir = "/repo"
+	cmd.Env = append(os.Environ(), "GOFLAGS=-mod=mod", "GOPROXY=off", "GOTOOLCHAIN=auto")
+	out, _ := cmd.CombinedOutput()
+	rr.TestPath = testPath
+	rr.Kind = o.Kind
+	rr.Command = "cd /repo && go test -overlay <overlay> -vet=off -count=1 -timeout 60s -run ^TestGovcReplay$ ./" + rel
+	rr.TestFile = tmpTest
+	rr.Output = truncate(string(out), 6000)
+	var observed []string
+	panicked := false
+	for _, ln := range strings.Split(string(out), "\n") {
+		if strings.HasPrefix(ln, "GOVC-RESULT ") {
+			f := strings.SplitN(ln, " ", 3)
+			if len(f) == 3 {
+				observed = append(observed, f[2])
+			}
+		}
+		if strings.HasPrefix(ln, "GOVC-PANIC") {
+			panicked = true
+			observed = append(observed, ln)
+		}
+	}
+	rr.Observed = observed
+	if o.Kind == "nopanic" {
+		rr.Reproduced = panicked
+		if !panicked {
+			rr.Reason = "the real code did not panic on the model's input"
+		}
+		return rr
+	}
+	if panicked {
+		rr.Reason = "the real code panicked on the model's input"
+		return rr
+	}
+	if len(observed) != len(predicted) || len(observed) == 0 && nres > 0 {
+		rr.Reason = "could not run the replay test (see output)"
+		return rr
+	}
+	match := true
+	for i := range observed {
+		if predicted[i] == "?" {
+			continue
+		}
+		if !sameShown(observed[i], predicted[i]) {
+			match = false
+		}
+	}
+	// The model's results violate the postcondition (the solver evaluated it to false on them).
+	// If the real code returns the same results on the same inputs, the violation is reproduced.
+	rr.Reproduced = match
+	if !match {
+		rr.Reason = "the real code's results differ from the model's prediction (spurious model from an abstraction)"
+	}
+	return rr
+}
+
+func resultShowExpr(name string, t types.Type) string {
+	switch t.Underlying().(type) {
+	case *types.Pointer, *types.Map, *types.Slice, *types.Signature:
+		return fmt.Sprintf("map[bool]string{true: \"nil\", false: \"non-nil\"}[%s == nil]", name)
+	}
+	return name
+}
+
+func sameShown(obs, pred string) bool {
+	if obs == pred {
+		return true
+	}
+	// numeric comparison
+	a, ok1 := new(big.Rat).SetString(obs)
+	b, ok2 := new(big.Rat).SetString(pred)
+	if ok1 && ok2 {
+		d := new(big.Rat).Sub(a, b)
+		d.Abs(d)
+		tol := new(big.Rat).SetFrac64(1, 1000000000)
+		return d.Cmp(tol) <= 0
+	}
+	return false
+}
+
+// resultString renders the model's value of a result in the same form the test prints it.
+func (b *replayBuilder) resultString(v Value, t types.Type) string {
+	switch x := v.(type) {
+	case Sc:
+		sx := b.val(x.T.S)
+		switch tt := t.Underlying().(type) {
+		case *types.Basic:
+			switch {
+			case tt.Info()&types.IsBoolean != 0:
+				return sx.atom
+			case tt.Info()&types.IsString != 0:
+				if s, ok := b.strs[sx.String()]; ok {
+					return strings.Trim(s, "\"")
+				}
+				return "?"
+			case tt.Info()&types.IsFloat != 0:
+				if sx.list && len(sx.kids) == 2 && sx.kids[0].atom == "fin" {
+					sx = sx.kids[1]
+				}
+				switch sx.atom {
+				case "nan":
+					return "NaN"
+				case "pinf":
+					return "+Inf"
+				case "ninf":
+					return "-Inf"
+				}
+				r, ok := sexpToRat(sx)
+				if !ok {
+					return "?"
+				}
+				return r.FloatString(12)
+			default:
+				r, ok := sexpToRat(sx)
+				if !ok {
+					return "?"
+				}
+				return r.Num().String()
+			}
+		case *types.Pointer, *types.Map, *types.Signature, *types.Interface:
+			r, ok := sexpToRat(sx)
+			if !ok {
+				return "?"
+			}
+			if r.Sign() == 0 {
+				return "nil"
+			}
+			return "non-nil"
+		}
+	case SliceV:
+		r, ok := sexpToRat(b.val(x.Arr.S))
+		if ok && r.Sign() == 0 {
+			return "nil"
+		}
+		return "non-nil"
+	}
+	return "?"
+}
+
+var _ = ssa.NewProgram
